@@ -98,3 +98,7 @@ def run(rep, tier):
     calls = [n for n in ast.walk(f.node) if isinstance(n, ast.Call) and norm(n.func).endswith("_prepTgForSaving")]
     rep.check(len(calls) == 1 and any(isinstance(s, ast.Assign) and s.value is calls[0] for s in f.node.body), "G-guards", f.short, "_prepTgForSaving(...)",
               ok="called exactly once, at the top level of the function, before the format dispatch", bad="the dictionary is not prepared exactly once before the format dispatch")
+    # 'if an entry would fall outside the requested span the save raises instead of writing an inconsistent file'
+    from .common import rule_save_order
+    rep.rule("B2-save-order", "in Textgrid.save the text is computed (and can raise) before the destination is opened for writing (shared with C13)")
+    rule_save_order(rep, ["Textgrid.save"])
